@@ -595,7 +595,7 @@ def run(tier="quick", seed=0):
 
     # ---- random histories
     t1 = time.time()
-    n = 40 if tier == "quick" else 400
+    n = 24 if tier == "quick" else 400
     tasks = []
     for ti, fl_ in enumerate(TEXT_FLAGS):
         text = _text(fl_)
@@ -615,13 +615,13 @@ def run(tier="quick", seed=0):
 
     # ---- reparse
     t1 = time.time()
-    scen = [f for i, f in enumerate(R.all_scenarios()) if i % (12 if tier == "quick" else 2) == 0]
+    scen = [f for i, f in enumerate(R.all_scenarios()) if i % (20 if tier == "quick" else 2) == 0]
     cases = [(R.render(R.flatten(R.scenario(**f))), PLANS[i % len(PLANS)]) for i, f in enumerate(scen)]
     cases += [(_text(f), pl) for f in TEXT_FLAGS for pl in PLANS]
     ev, dn, fl, nf, er = _collect(R.pmap(_work_reparse, R.chunks(cases, 3), chunksize=1))
     bounded.append(dict(
         name="C08.reparse", function=P + "parse",
-        bound=f"{len(cases)} (file, plan) pairs: every {12 if tier == 'quick' else 2}th lattice file with one of the plans "
+        bound=f"{len(cases)} (file, plan) pairs: every {20 if tier == 'quick' else 2}th lattice file with one of the plans "
               f"{PLANS} (values of include_ccdecays for successive parse() calls on one instance) and the 5 history files with every plan",
         evaluations=ev, distinct_nontrivial=dn,
         rule="one evaluation = one plan: after each parse() call the full snapshot is compared with a fresh instance parsed once "
